@@ -125,16 +125,16 @@ def unit_compare():
             ["cnt(lt, lv, ln) == ite(ln <= lp, cnt(ls, lv, ln), cnt(ls, lv, ln + 1) - ite(ls[lp] == lv, 1, 0))"], induct="ln",
             unfold=["unfold('cnt', lt, lv, ln)", "unfold('cnt', ls, lv, ln)", "unfold('cnt', ls, lv, ln + 1)"])
     U.var("h", INT)
-    m = G.function("compare_pos_in_iterables", {"a": S, "b": S}, BOOL, locals={"x": ANY})
+    m = G.function("compare_pos_in_iterables", {"a": S, "b": S}, BOOL)
     m.ghost_entry("g_b0 = b")
     lp = m.loop(1)
     lp.invariant("forall(v, cnt(b, v, len(b)) + cnt(a, v, _i1) == cnt(g_b0, v, len(g_b0)))", "remaining+consumed=original(per-value)")
     lp.use_at_init("forall(v, unfold('cnt', a, v, 0))")
     lp.ghost_at_begin("g_b = b")
-    # facts the ValueError exit needs about x = a[_i1 - 1]: absent from b => count 0; one more occurrence in a; counts grow with the prefix
-    lp.use_at_begin("lemma_inst('cnt_absent', b, x, len(b))")
-    lp.use_at_begin("unfold('cnt', a, x, _i1)")
-    lp.use_at_begin("lemma_inst('cnt_mono', a, x, _i1, len(a))")
+    # facts the ValueError exit needs about the current element a[_i1 - 1]: absent from b => count 0; one more occurrence in a; counts grow with the prefix
+    lp.use_at_begin("lemma_inst('cnt_absent', b, a[_i1 - 1], len(b))")          # (the loop variable is not named: a[_i1 - 1] is its value)
+    lp.use_at_begin("unfold('cnt', a, a[_i1 - 1], _i1)")
+    lp.use_at_begin("lemma_inst('cnt_mono', a, a[_i1 - 1], _i1, len(a))")
     lp.use_at_end("forall(v, lemma_inst('cnt_delete', g_b, b, _removed_at, v, len(b)))")
     lp.use_at_end("forall(v, unfold('cnt', g_b, v, len(g_b)))")
     lp.use_at_end("forall(v, unfold('cnt', a, v, _i1))")
